@@ -32,6 +32,7 @@ PICK = {
  'C19': ['hist_vector_ops2', 'copy_independent', 'copy_then_grow', 'hist_static_vector'],
 }
 PICK_ALL_QUICK = {'C19'}   # properties whose picked harnesses run ALL their quick configurations here (operation pairs are per-query constants)
+LT_SKIP = {'C03.reshape3', 'C08.radd_axes2'}   # the two slowest picks run without lifetime modelling (budget)
 KERNELS = {}
 HARNESSES = []
 for _pid, _names in PICK.items():
@@ -45,12 +46,15 @@ for _pid, _names in PICK.items():
         _h2 = copy.deepcopy(_h); _h2['name'] = _pid + '.' + _h['name']; _h2['finding_pid'] = _pid; _h2['finding_harness'] = _h['name']
         if not _h.get('quick'): continue
         _h2['quick'] = _h['quick'] if _pid in PICK_ALL_QUICK else _h['quick'][:1]; _h2['thorough'] = _h['quick']
+        if _h2['name'] not in LT_SKIP:      # dead stack objects become arbitrary (engine/ll2c.py LL_LIFETIME): a read through a dangling reference leaves the storage of every live object
+            _h2['quick'] = [dict(c, LL_LIFETIME=1) for c in _h2['quick']]; _h2['thorough'] = [dict(c, LL_LIFETIME=1) for c in _h2['thorough']]
         _h2['bounds'] = '[from %s] %s' % (_pid, _h.get('bounds', ''))
         HARNESSES.append(_h2)
 OUTSIDE = ['compositions other than the listed programs', 'device back ends', 'SIMD contexts other than those of C12']
 
 ASSUMPTIONS = ['every query carries CBMC pointer/bounds obligations on all translated loads/stores plus the NMTOOLS_VERIF hook obligations (see module docstring)',
-               'known findings of the source properties are excluded exactly as in those properties (matched through finding_pid / finding_harness)']
+               'known findings of the source properties are excluded exactly as in those properties (matched through finding_pid / finding_harness)',
+               'LL_LIFETIME: at llvm.lifetime.end the dead object is overwritten with arbitrary bytes, so use-after-scope reads are visible as unconstrained values (all picks except the two slowest)']
 CLAIM = dict(
  text='Cross-section of %d harnesses from C03-C08, C10-C13, C19: for every accepted symbolic argument and a symbolic element index inside the reported shape (and for eval into inferred and '
       'caller-supplied outputs, SIMD packed loads/stores and tails on exact-size buffers, the per-thread device step), the solver shows that no load or store of the encoded nmtools code leaves its '
